@@ -157,17 +157,40 @@ def run(ctx):
     # ---------------- R02.2
     sym = lambda x: ('MOFFS' if q.refers_to_decl(x, locs['moffs'][0]) else 'MSG' if q.refers_to_decl(x, msgd) else 'HLEN' if q.refers_to_decl(x, locs['hlen'][0])
                      else 'MSGLEN' if q.refers_to_decl(x, locs['msgLen'][0]) else x.text())
-    lf = q.linear(locs['msgLen'][1], sym=sym)
+    # named locals that merely abbreviate an expression of the role variables are substituted (a refactoring may introduce `hstart = moffs - hlen`)
+    roles = {locs[k][0] for k in ('moffs', 'msg', 'hlen', 'msgLen', 'hmsg') if k in locs}
+    env = {}
+    for st_ in f.all_nodes():
+        if st_.k == 'DeclStmt':
+            for dd, init in st_.r.get('decls', []):
+                if init >= 0 and dd not in roles and f.tu.decls[dd].get('sc') == 'local' and len(q.local_defs(f, dd)) == 1:
+                    try:
+                        lf_ = q.linear(f.node(init), env=env, sym=sym)
+                        if set(lf_.t) <= {'MOFFS', 'MSG', 'HLEN', 'MSGLEN'}:
+                            env[dd] = lf_
+                    except Exception:
+                        pass
+    _lin = q.linear
+    class _Q:
+        pass
+    def linear(n, sym=sym):
+        return _lin(n, env=env, sym=sym)
+    lf = linear(locs['msgLen'][1])
     ctx.check(lf.t == {'MSG': 1, 'MOFFS': -1} and lf.c == 0, 'R02.2', M + 'encode#bodylength.value', locs['msgLen'][2].loc, 'msgLen = cursor − start of the MsgType field')
     ctx.check(q.refers_to_decl(bls[0].args[0], locs['msgLen'][0]), 'R02.2', M + 'encode#bodylength.set', bls[0].loc, 'BodyLength := msgLen')
-    lf = q.linear(locs['hmsg'][1], sym=sym)
+    lf = linear(locs['hmsg'][1])
     ctx.check(lf.t == {'MOFFS': 1, 'HLEN': -1} and lf.c == 0, 'R02.2', M + 'encode#preamble.start', locs['hmsg'][2].loc, 'preamble is written at moffs − hlen')
+    def is_pre_start(x):
+        if q.refers_to_decl(x, locs['hmsg'][0]):
+            return True
+        lx = linear(x)
+        return lx.t == {'MOFFS': 1, 'HLEN': -1} and lx.c == 0
     pub = [n for n in f.all_nodes() if n.k == 'BinaryOperator' and n.op == '=' and n.children[0].strip().k == 'UnaryOperator' and
-           q.refers_to_decl(n.children[0].strip().children[0], f.param_ids[0]) and q.refers_to_decl(n.children[1], locs['hmsg'][0])]
+           q.refers_to_decl(n.children[0].strip().children[0], f.param_ids[0]) and is_pre_start(n.children[1])]
     ctx.check(len(pub) == 1 and cfg.dominates(v(pub[0]), v(bse[0])), 'R02.2', M + 'encode#publish', f.loc, '*hmsg_store := start of the preamble (before it is advanced)')
     ctx.check(q.refers_to_decl(bse[0].args[0], locs['hmsg'][0]) and q.refers_to_decl(ble[0].args[0], locs['hmsg'][0]), 'R02.2', M + 'encode#preamble.cursor', bse[0].loc,
               'BeginString and BodyLength are rendered at the preamble cursor')
-    a0, a1 = q.linear(ck.args[0], sym=sym), q.linear(ck.args[1], sym=sym)
+    a0, a1 = linear(ck.args[0]), linear(ck.args[1])
     ctx.check(a0.t == {'MOFFS': 1, 'HLEN': -1} and a0.c == 0 and a1.t == {'MSGLEN': 1, 'HLEN': 1} and a1.c == 0, 'R02.2', M + 'encode#checksum.range', ck.loc,
               'CheckSum covers [moffs − hlen, moffs + msgLen): every byte before the CheckSum field')
     hl = locs['hlen'][1].strip(casts=True)
@@ -196,7 +219,15 @@ def run(ctx):
             s = s.child('else').strip(casts=True)
         out.append((None, None, s.value))
         return out
-    lad = ladder(hl.children[1], lambda x: q.refers_to_decl(x, locs['msgLen'][0]))
+    lad_expr, lad_var = hl.children[1], (lambda x: q.refers_to_decl(x, locs['msgLen'][0]))
+    le = lad_expr.strip(casts=True)
+    if le.is_call and le.callee_qp and len(le.args) == 1 and q.refers_to_decl(le.args[0], locs['msgLen'][0]):
+        for h in prog.fns(le.callee_qp):
+            rr = [x for x in h.all_nodes() if x.k == 'ReturnStmt' and x.children]
+            if len(rr) == 1 and len(h.param_ids) == 1:
+                ctx.saw(h)
+                lad_expr, lad_var = rr[0].children[0], (lambda x, _p=h.param_ids[0]: q.refers_to_decl(x, _p))      # the ladder lives in a helper
+    lad = ladder(lad_expr, lad_var)
     okl = lad is not None and len(lad) >= 5 and all(op == '<' and th == 10 ** (i + 1) and val == i + 1 for i, (op, th, val) in enumerate(lad[:-1])) and lad[-1][2] == len(lad)
     ctx.check(okl, 'R02.3', M + 'encode#digit-ladder', locs['hlen'][2].loc, 'digit count ladder: msgLen < 10^k → k for k = 1..%d, else %d' % (len(lad) - 1 if lad else 0, len(lad) if lad else 0),
               'digit ladder is %s' % lad)
@@ -255,8 +286,14 @@ def run(ctx):
     eg = prog.fn1(MB + 'encode_group', sig='char *')
     ctx.saw(eg)
     fr2 = [n for n in eg.all_nodes() if n.k == 'CXXForRangeStmt']
-    ctx.check(len(fr2) == 1 and any(x.k == 'MemberExpr' and x.decl['n'] == '_msgs' for x in fr2[0].child('range').walk()), 'R02.5', MB + 'encode_group#in-order', eg.loc,
-              'group elements are rendered in container order')
+    in_order = len(fr2) == 1 and any(x.k == 'MemberExpr' and x.decl['n'] == '_msgs' for x in fr2[0].child('range').walk())
+    if not in_order:
+        # the same traversal written with the algorithm: std::for_each(_msgs.begin(), _msgs.end(), ...)
+        fe = [c for c in eg.calls() if c.callee_qp == 'std::for_each' and len(c.args) >= 3]
+        in_order = len(fe) == 1 and all(any(x.k == 'MemberExpr' and x.decl['n'] == '_msgs' for x in a.walk()) for a in fe[0].args[:2]) and \
+            any(x.is_call and x.callee is not None and x.callee.get('n') in ('begin', 'cbegin') for x in fe[0].args[0].walk()) and \
+            any(x.is_call and x.callee is not None and x.callee.get('n') in ('end', 'cend') for x in fe[0].args[1].walk())
+    ctx.check(in_order, 'R02.5', MB + 'encode_group#in-order', eg.loc, 'group elements are rendered in container order')
     unk = [c for c in me.calls() if c.callee is not None and c.callee.get('n') == 'copy' and c.obj is not None and q.refers_to_member(c.obj, MB + '_unknown')]
     ctx.check(len(unk) == 1 and me.cfg.dominates(me.cfg.block_in[me.cfg.V[me.cfg.vertex_of(fr[0].child('range'))].block] if fr else 0, me.cfg.vertex_of(unk[0])), 'R02.5',
               MB + 'encode#unknown-last', me.loc, 'pass-through bytes follow the positioned fields')
